@@ -34,6 +34,26 @@ CHECKS = {
              "transaction behaviour modelled from the translated constraint flags, observed through the correspondence.",
         technique="Lean 4 proof (invariant + induction over the stream) + translator + differential correspondence",
     ),
+    "C11": dict(
+        category="proof",
+        text="Lean theorems about the three cleaning steps of the store model, for every store with the invariant whose "
+             "links are the parent fields of its spans (what ingest_spec establishes) and every window: "
+             "remove_inconsistent_jobs keeps exactly the spans of traces none of whose spans names a missing parent; "
+             "remove_jobs_outside_of_time_window keeps exactly the traces with a span start or end inside the closed "
+             "window; both decide per whole trace and leave kept spans unchanged and in place; renaming changes nothing "
+             "but the workflow name and gives every span of a single-rooted trace the root's name; the invariant and "
+             "faithfulness survive (so ingestion/streaming theorems apply afterwards); non-interference: if the traces "
+             "selected by any predicate are all removed and no kept span hangs below one of them, cleaning yields exactly "
+             "the spans obtained from the store that never held them. The model is compared with SQLDataHolder on full "
+             "table dumps after every step; an oracle written from the property text and a second real run without the "
+             "removed traces (same window) check the PV sequences.",
+        ref="DESIGN.md §5 C11",
+        note="Trusted: Lean kernel; axioms propext, Quot.sound, Classical.choice; SQL DELETE/UPDATE semantics modelled, "
+             "observed through the correspondence. The window is the one the run computed. Traces with several roots of "
+             "different names are left free (SQLite's choice).",
+        technique="Lean 4 proof (filter algebra over the store model, invariant preservation) + differential correspondence + "
+                  "re-run oracle",
+    ),
     "C12": dict(
         category="proof",
         text="Lean theorems about Store.stream for every store and every optional (name -> ids) filter: the streamed spans "
@@ -60,7 +80,15 @@ CHECKS = {
     ),
 }
 
-NOT_APPLICABLE = []
+PENDING = {
+    # property id -> why it is not claimed (kept current; removed as soon as its check is registered)
+}
+ALL = ["C%02d" % i for i in range(1, 17)]
+NOT_APPLICABLE = [
+    {"property_id": p, "reason": PENDING.get(p, "not claimed yet: the technique applies (DESIGN.md §5 gives the model and "
+                                             "theorems planned) but its check is not built at this commit, so nothing is claimed")}
+    for p in ALL if p not in CHECKS
+]
 
 
 def main() -> None:
